@@ -54,3 +54,8 @@ def run(ctx):
     c10.order_feed(ctx, prog)
     c10.reorder_cut(ctx, prog)
     c10.can_reorder_rule(ctx, prog)
+    # the result includes terminating: a work unit / slot that is not given back stalls the pipeline for some worker
+    # counts and schedules only (token conservation laws of the expansion pipeline, shared with C11)
+    import conc
+    from props import c11
+    c11.r3(ctx, prog, conc.Analysis(prog), only_modes=('expan',), floor=10)
